@@ -21,6 +21,6 @@ void vbi_transp_colormap(vbi_decoder *vbi, vbi_rgba *d, vbi_rgba *s, int entries
 #ifdef VERIF_CBMC
 /* the only reachable call: snprintf(buf, 16, "\2%x.%02x\7", pgno, subno & 0xff) with pgno 0x100, subno 0 */
 int c02fmt_snprintf(char *s, size_t n, const char *fmt, ...)
-{ static const char t[9] = "\002100.00\007"; unsigned i; (void) fmt; for (i = 0; i < 9 && i < n; i++) s[i] = t[i]; return 8; }
+{ static const char t[9] = { 2, '1', '0', '0', '.', '0', '0', 7, 0 }; unsigned i; (void) fmt; for (i = 0; i < 9 && i < n; i++) s[i] = t[i]; return 8; }
 #endif
 #endif
